@@ -66,14 +66,19 @@ Section Variation.
     | _, _, _, _ => (p1, p2, us)
     end.
 
-  (* ---- PolynomialMutator: one coordinate.  nm1 = m_nm + 1, inm1 = 1.0/(m_nm+1.0) *)
+  (* ---- PolynomialMutator: one coordinate.  nm1 = m_nm + 1, inm1 = 1.0/(m_nm+1.0).
+     Since /repo commit c8cdcf67 a coordinate whose interval is degenerate (upper == lower) and whose value is in
+     range is left unchanged after the coin toss, and no further draw is consumed for it (before, the code divided
+     by the width 0: 0/0 = NaN on doubles, not caught by the clipping). *)
   Variables nm1 inm1 : T.
+  Variable eqb : T -> T -> bool.                  (* operator== *)
 
   Definition pm_coord (prob lo hi x : T) (us : list T) : T * list T :=
     let (u0, us1) := draw us in
     if ltb u0 prob then
       if ltb x lo || ltb hi x then
         let (u, us2) := draw us1 in (uni u lo hi, us2)
+      else if eqb hi lo then (x, us1)
       else
         let delta1 := div (sub hi x) (sub hi lo) in
         let delta2 := div (sub x lo) (sub hi lo) in
